@@ -12,9 +12,16 @@
  *   output byte i = i <= d ? window byte d-i back from the write position : output byte i-d-1
  *   new window = old window with the output written from the old write position (mod RING); position advances by L.
  *
+ * Harness modes (entry points / defines):
+ *   harness, default      closed-form oracle above, checked at an arbitrary output index and an arbitrary ring cell
+ *                         after the real call; affordable for copy lengths <= LENMAX of 8..32.
+ *   harness, STEPWISE     byte-at-a-time oracle (monitor around the real output_byte, see below): the whole length
+ *                         range 3..256 (LHARK ..514) stays symbolic.
+ *   harness_codes         distance decoding (and LHARK length decoding) alone, at real parameters.
+ *   harness_outbyte       the real output_byte alone (frame condition).
  * The template lib/lh_new_decoder.c is instantiated here with small HISTORY_BITS (HB) so that position, distance
- * and the whole length range are symbolic and the ring wraps many times; with REAL_LH5 / REAL_LK7 the real
- * instantiation file is included and the copy length is bounded by LENMAX. */
+ * and length are symbolic and the ring wraps many times; with REAL_LH5 / REAL_LH6 / REAL_LH7 / REAL_LHX / REAL_LK7
+ * the real instantiation file is included instead. */
 #include "verif.h"
 #if defined(REAL_LH5)
 #include "lib/lh5_decoder.c"
